@@ -9,7 +9,8 @@ namespace NV.C10
 
 /-- the oracle's view of a pending call_out -/
 def toPend (c : Call) : Pend :=
-  { owner := c.owner, fn := c.fn, tag := c.tag, due := c.due - (T0 : Int), handle := (c.handle : Int) }
+  { owner := c.owner, fn := c.fn, tag := c.tag, due := c.due - (T0 : Int), handle := (c.handle : Int), fp := c.fp,
+    giver := c.giver }
 
 /-- `c` is pending somewhere in the wheel -/
 def InWheel (w : World) (c : Call) : Prop := ∃ s D, (D, c) ∈ cum 0 (w.slots s)
